@@ -2,7 +2,7 @@
    subtree (findDescendants, the depth sort, renameDescendants, the deferred deletes). *)
 From Coq Require Import Sorting.Permutation.
 From AF Require Import Lib.Bytes Lib.Path Lib.Ops Gen.Consts Model.MemFile Model.MemFs Model.WfOps
-  Proofs.BytesLemmas Proofs.MemFsPath Proofs.MemFsWF Proofs.MemFsStep.
+  Proofs.BytesLemmas Proofs.MemFsPath Proofs.MemFsWF Proofs.MemBelow Proofs.MemFsStep.
 Local Open Scope Z_scope.
 
 (* ---------- every ancestor of a live name is a live directory ---------- *)
@@ -666,8 +666,9 @@ End Rename.
 
 Lemma m_rename_body s p q f :
   lookup s (normalize_path p) = Some f -> beqb (normalize_path p) (normalize_path q) = false ->
+  below_file s (normalize_path q) = false ->
   m_rename s p q = rename_body (normalize_path p) (normalize_path q) f s.
-Proof. intros Hl Hne. unfold m_rename, rename_body. rewrite Hl, Hne. reflexivity. Qed.
+Proof. intros Hl Hne Hb. unfold m_rename, rename_body. rewrite Hl, Hne, Hb. reflexivity. Qed.
 
 (* what the precondition of Rename gives when the source exists and differs from the target *)
 Lemma rename_pre s old new f :
@@ -708,12 +709,15 @@ Proof.
   assert (Ho : canon old) by now apply canon_normalize. assert (Hnc : canon new) by now apply canon_normalize.
   apply negb_true_iff, beqb_neq in Hroot.
   assert (Eon' : beqb old new = false) by now apply beqb_neq.
-  rewrite (m_rename_body s p q f Hl Eon'). fold old new.
   destruct (GWF_lookup_node _ _ _ _ _ _ W Hl) as (fn & Hfn).
   assert (Hko : kind_at s old = Some (ndir fn)) by (unfold kind_at; now rewrite Hl, Hfn).
   rewrite Hko, Eon' in Hwf. cbn [orb] in Hwf. apply andb_true_iff in Hwf as [Hb1 Hpre]. apply negb_true_iff in Hb1.
   destruct (rename_pre s old new f W Ho Hnc Hl Eon) as (Hnr & Hb2 & Hfree & Hpnew).
   { rewrite Hko. exact Hpre. }
+  assert (Hbf : below_file s new = false).
+  { destruct Hpnew as (pp & ppn & Hpp & Hppn & Hppd). apply (below_file_parent_dir s new pp ppn); [|exact Hppn | exact Hppd].
+    change (path_dir new) with (par new). now rewrite (canon_norm _ (canon_par new Hnc)). }
+  rewrite (m_rename_body s p q f Hl Eon' Hbf). fold old new.
   exact (rename_core old new f Ho Hnc Hroot Hnr Eon Hb1 Hb2 s W Hl Hfree Hpnew).
 Qed.
 
